@@ -139,7 +139,12 @@ func c04(r *core.Report, p *core.Prog, thorough bool) {
 	if vf == nil {
 		r.Unresolved("C04.validate-body", "StateContext.Validate")
 	} else {
-		vs := core.CallsIn(vf, false, core.NameIs("("+pkgState+".SignedTransfer).VerifySignature", "(*"+pkgState+".SignedTransfer).VerifySignature"))
+		// Validate and the helpers it delegates part of its verdict to
+		fam := GuardFamily(vf, 2)
+		var vs []core.CallSite
+		for _, f := range fam {
+			vs = append(vs, core.CallsIn(f, false, core.NameIs("("+pkgState+".SignedTransfer).VerifySignature", "(*"+pkgState+".SignedTransfer).VerifySignature"))...)
+		}
 		if r.Check(len(vs) == 1, "C04.validate-body", "Validate:verify-signature", p.Pos(vf.Pos()), fmt.Sprintf("%d VerifySignature calls", len(vs))) {
 			call := vs[0].Instr.(*ssa.Call)
 			args := core.CallArgs(call.Common())
@@ -149,7 +154,8 @@ func c04(r *core.Report, p *core.Prog, thorough bool) {
 			// every queued signed transfer is verified: complete loop over the queue, the
 			// check on the visited element, no iteration that skips it, loop finished before success
 			okLoop, why := false, "no complete loop over the signed-transfer queue verifying the visited element"
-			for _, rl := range RangeLoops(vf) {
+			owner := call.Parent()
+			for _, rl := range RangeLoops(owner) {
 				if _, pth := core.BaseObject(rl.Slice); !strings.HasSuffix(pth, ".signedTransfers") {
 					continue
 				}
@@ -160,7 +166,7 @@ func c04(r *core.Report, p *core.Prog, thorough bool) {
 				}
 				okB, d := rl.BodyMustPass(p, call)
 				done := true
-				for _, ret := range core.SuccessExits(vf) {
+				for _, ret := range core.SuccessExits(owner) {
 					if !rl.L.Header.Succs[1].Dominates(ret.Block()) {
 						done = false
 					}
@@ -175,7 +181,13 @@ func c04(r *core.Report, p *core.Prog, thorough bool) {
 		}
 		// cap comparison: a failure exit dominated by `amount > totalValue`
 		capOK := false
-		for _, ret := range core.Returns(vf) {
+		var famRets []*ssa.Return
+		nAdd := 0
+		for _, f := range fam {
+			famRets = append(famRets, core.Returns(f)...)
+			nAdd += len(core.CallsIn(f, false, core.NameIs(pkgCurr+".AddCoin")))
+		}
+		for _, ret := range famRets {
 			if core.ClassifyReturn(ret) != core.ExitFailure {
 				continue
 			}
@@ -189,7 +201,6 @@ func c04(r *core.Report, p *core.Prog, thorough bool) {
 			}
 		}
 		r.Check(capOK, "C04.validate-body", "Validate:cap", p.Pos(vf.Pos()), "sender total compared with the transaction value (+fee) and rejected when larger")
-		nAdd := len(core.CallsIn(vf, false, core.NameIs(pkgCurr+".AddCoin")))
 		r.Check(nAdd >= 1, "C04.validate-body", "Validate:checked-sum", p.Pos(vf.Pos()), fmt.Sprintf("%d checked additions", nAdd))
 	}
 
